@@ -26,6 +26,13 @@ Definition set_eq_tuples (a b : list tuple) : bool :=
 Definition ctx_ok (nrel : nat) (base der M : db) : bool :=
   forallb (fun r => set_eq_tuples (rel_tuples base r ++ rel_tuples der r) (rel_tuples M r)) (rel_seq nrel).
 
+(* relations that have rules AND stored facts *)
+Definition stored_and_derived (P : program) (base : db) : bool :=
+  existsb (fun e => match snd e with [] => false | _ => existsb (fun c => N.eqb (arel (chead c)) (fst e)) P end) base.
+(* ... whose stored facts the engine ignores (some clause is not self-recursive) *)
+Definition shadowed_facts (P : program) (base : db) : bool :=
+  existsb (fun e => match snd e with [] => false | _ => shadowed P (fst e) end) base.
+
 Definition has_clauses (P : program) (r : rel) : bool := existsb (fun c => N.eqb (arel (chead c)) r) P.
 Definition negates_derived (P : program) : bool :=
   existsb (fun c => existsb (fun l => match l with LNeg a => has_clauses P (arel a) | _ => false end) (cbody c)) P.
